@@ -37,6 +37,18 @@ class ProofSplice:
 
 
 @dataclass
+class ClosureSpec:
+    regex: str
+    oid: str
+    tags: List[str]
+    params: str = ''
+    ret: str = ''
+    requires: List[str] = field(default_factory=list)
+    ensures: List[str] = field(default_factory=list)
+    src: str = ''
+
+
+@dataclass
 class Contract:
     addr: str
     status: str = 'verify'          # verify trusted external omitted
@@ -48,6 +60,7 @@ class Contract:
     decreases: Optional[str] = None
     loops: Dict[int, LoopSpec] = field(default_factory=dict)
     proofs: List[ProofSplice] = field(default_factory=list)
+    closures: List[ClosureSpec] = field(default_factory=list)
     ghost: str = ''                 # ghost members appended inside the item body (struct/impl/trait)
     stub: bool = False
     after: str = ''                 # ghost items emitted right after the item
@@ -149,6 +162,28 @@ def parse_file(path: str) -> List[Contract]:
                 raise ContractError('%s: @proof after|before /re/ <id> [tags]  or  @proof start <id> [tags]' % where)
             cur.proofs.append(ProofSplice(mode=mm.group(1), regex=mm.group(2) or None, text=rest_lines,
                                           oid=mm.group(3), tags=mm.group(4).split(), src=where))
+        elif d == 'closure':
+            cur_loop = None
+            mm = re.match(r'/(.*)/\s+(\S+)\s+\[([^\]]*)\]\s*$', arg)
+            if not mm:
+                raise ContractError('%s: @closure /re(params)(body)/ <id> [tags]' % where)
+            cs = ClosureSpec(regex=mm.group(1), oid=mm.group(2), tags=mm.group(3).split(), src=where)
+            for l in rest_lines.split('\n'):
+                l = l.strip()
+                if not l:
+                    continue
+                k, _, v = l.partition(' ')
+                if k == 'params':
+                    cs.params = v.strip()
+                elif k == 'ret':
+                    cs.ret = v.strip()
+                elif k == 'requires':
+                    cs.requires.append(v.strip())
+                elif k == 'ensures':
+                    cs.ensures.append(v.strip())
+                else:
+                    raise ContractError('%s: bad @closure line %r' % (where, l))
+            cur.closures.append(cs)
         elif d == 'ghost':
             cur.ghost += rest_lines + '\n'
         elif d == 'after':
